@@ -146,28 +146,31 @@ theorem hoistBounds_inv (ns : List (String × Impl)) (uniq : List (String × Str
     ∀ (ch : List Level) (rvs : List RVar) (st st' : St) (hs : List Hoisted) (nb : List (String × SExpr × SExpr)),
       rvs.map (·.name) = ch.map (·.2.1) →
       (∀ rv ∈ rvs, rv.loAffine = false ∧ rv.hiAffine = false) →
-      (∀ c ∈ ch, boundsOf c.2.1 e = some (c.2.2.1, c.2.2.2) ∧ (∃ u, lookupStr uniq c.2.1 = some u) ∧
-        (∃ l h, c.2.2.1 = .int l ∧ c.2.2.2 = .int h)) →
+      (∀ c ∈ ch, boundsOf c.2.1 e = some (c.2.2.1, c.2.2.2) ∧ (∃ u, lookupStr uniq c.2.1 = some u)) →
       hoistBounds ns uniq e false rvs st = .ok (hs, nb, st') →
       ∃ ls : List RL, ls.map RL.sem = ch ∧ (∀ r ∈ ls, lookupStr uniq r.v = some r.u) ∧
+        (∀ r ∈ ls, gen ns [] r.lo = some r.lb ∧ gen ns [] r.hi = some r.ub) ∧
         hs = ls.flatMap RL.hs ∧ nb = ls.map RL.nb ∧ DrewV st st' (ls.flatMap RL.temps) ∧
         DrewI st st' (ls.flatMap RL.ids)
   | [], [], st, st', hs, nb, _, _, _, h => by
     simp only [hoistBounds, Res.ok.injEq, Prod.mk.injEq] at h
     obtain ⟨rfl, rfl, rfl⟩ := h
-    exact ⟨[], rfl, by simp, rfl, rfl, DrewV.nil _, DrewI.nil _⟩
+    exact ⟨[], rfl, by simp, by simp, rfl, rfl, DrewV.nil _, DrewI.nil _⟩
   | [], _ :: _, _, _, _, _, hn, _, _, _ => by simp at hn
   | _ :: _, [], _, _, _, _, hn, _, _, _ => by simp at hn
   | c :: cs, rv :: rvs, st, st', hs, nb, hn, hfl, hch, h => by
     simp only [List.map_cons, List.cons.injEq] at hn
     obtain ⟨hname, hn'⟩ := hn
-    obtain ⟨hb, ⟨u, hu⟩, l, hh, hlo, hhi⟩ := hch c (by simp)
+    obtain ⟨hb, ⟨u, hu⟩⟩ := hch c (by simp)
     obtain ⟨hfl1, hfl2⟩ := hfl rv (by simp)
     obtain ⟨op, v, lo, hi⟩ := c
-    simp only at hname hb hu hlo hhi
-    subst hlo hhi
-    simp only [hoistBounds, hname, hb, hu, hfl1, hfl2, Bool.false_eq_true, if_false, gen] at h
+    simp only at hname hb hu
+    simp only [hoistBounds, hname, hb, hu, hfl1, hfl2, Bool.false_eq_true, if_false] at h
     obtain ⟨lr, hl, h⟩ := Res.bind_ok.1 h
+    cases hgl : gen ns [] lo with
+    | none => simp [hgl] at hl
+    | some lb =>
+    simp only [hgl] at hl
     obtain ⟨t1, ht1, hl⟩ := Res.bind_ok.1 hl
     obtain ⟨tl, sa⟩ := t1
     obtain ⟨i1, hi1, hl⟩ := Res.bind_ok.1 hl
@@ -175,6 +178,10 @@ theorem hoistBounds_inv (ns : List (String × Impl)) (uniq : List (String × Str
     simp only [Res.ok.injEq] at hl
     subst hl
     obtain ⟨ur, hur, h⟩ := Res.bind_ok.1 h
+    cases hgu : gen ns [] hi with
+    | none => simp [hgu] at hur
+    | some ub =>
+    simp only [hgu] at hur
     obtain ⟨t2, ht2, hur⟩ := Res.bind_ok.1 hur
     obtain ⟨tu, sc⟩ := t2
     obtain ⟨i2, hi2, hur⟩ := Res.bind_ok.1 hur
@@ -185,14 +192,18 @@ theorem hoistBounds_inv (ns : List (String × Impl)) (uniq : List (String × Str
     obtain ⟨hs', nb', st''⟩ := rr
     simp only [Res.ok.injEq, Prod.mk.injEq] at h
     obtain ⟨rfl, rfl, rfl⟩ := h
-    obtain ⟨ls, hls, hlu, rfl, rfl, hd, hdi⟩ := hoistBounds_inv ns uniq e cs rvs sd st'' hs' nb' hn'
+    obtain ⟨ls, hls, hlu, hlg, rfl, rfl, hd, hdi⟩ := hoistBounds_inv ns uniq e cs rvs sd st'' hs' nb' hn'
       (fun rv' h' => hfl rv' (List.mem_cons_of_mem _ h')) (fun c' h' => hch c' (List.mem_cons_of_mem _ h')) hrr
-    refine ⟨{ op := op, v := v, u := u, l := l, h := hh, tl := tl, il := il, tu := tu, iu := iu } :: ls,
-      by simp [RL.sem, hls], ?_, by simp [RL.hs], by simp [RL.nb], ?_, ?_⟩
+    refine ⟨(⟨op, v, u, lo, hi, lb, ub, tl, il, tu, iu⟩ : RL) :: ls,
+      by simp [RL.sem, hls], ?_, ?_, by simp [RL.hs], by simp [RL.nb], ?_, ?_⟩
     · intro r hr
       rcases List.mem_cons.1 hr with rfl | hr
       · exact hu
       · exact hlu r hr
+    · intro r hr
+      rcases List.mem_cons.1 hr with rfl | hr
+      · exact ⟨hgl, hgu⟩
+      · exact hlg r hr
     · have d := (((St.var_drew ht1).toV.trans (DrewV.ofInsnId hi1)).trans
         ((St.var_drew ht2).toV.trans (DrewV.ofInsnId hi2))).trans hd
       simpa [RL.temps] using d
@@ -286,7 +297,7 @@ theorem ilStore_invR {shape : Shape} {e body : SExpr} {ch : List Level} {tag : N
     {rvars : List RVar} {uniq : List (String × String)} {ns : List (String × Impl)} {bd : List String}
     {i : Nat} {st st' : St} {r : Impl} (rk : String → Option Nat) {n : Nat}
     (he : e = mkChain ch body) (hne : isEmptyShape shape = false)
-    (hnd : (ch.map (·.2.1)).Nodup) (hints : ∀ c ∈ ch, ∃ l h, c.2.2.1 = .int l ∧ c.2.2.2 = .int h)
+    (hnd : (ch.map (·.2.1)).Nodup)
     (hrv : rvars.map (·.name) = ch.map (·.2.1)) (hfl : ∀ rv ∈ rvars, rv.loAffine = false ∧ rv.hiAffine = false)
     (huq : uniq.map (·.1) = ch.map (·.2.1))
     (hbok : exprOK n body = true) (hbrk : ranksOKS rk (ch.map (·.2.1)) body = true)
@@ -299,6 +310,7 @@ theorem ilStore_invR {shape : Shape} {e body : SExpr} {ch : List Level} {tag : N
       St.vars st2 (dimNames name shape.length) = .ok (inames, st3) ∧
       ls.map RL.sem = ch ∧ uniq = ls.map RL.pair ∧ DrewV st3 st3' (ls.flatMap RL.temps) ∧
       DrewI st3 st3' (ls.flatMap RL.ids) ∧
+      (∀ r ∈ ls, gen ns [] r.lo = some r.lb ∧ gen ns [] r.hi = some r.ub) ∧
       deps = bd ++ genDeps (ns ++ tempNs ls) [] (mkChain (ls.map RL.renamed) (renameRed uniq body)) ∧
       (∀ r ∈ ls, r.u ∉ ch.map (·.2.1) ∧ lookupNs ns r.u = none ∧ lookupNs ns r.tl = none ∧ lookupNs ns r.tu = none) ∧
       gen ns (ls.map (·.u)).reverse (renameRed uniq body) = some b' ∧
@@ -316,10 +328,9 @@ theorem ilStore_invR {shape : Shape} {e body : SExpr} {ch : List Level} {tag : N
   obtain ⟨hs, nb, st3'⟩ := hb
   rw [hne] at hhb
   -- the levels
-  have hch : ∀ c ∈ ch, boundsOf c.2.1 e = some (c.2.2.1, c.2.2.2) ∧ (∃ u, lookupStr uniq c.2.1 = some u) ∧
-      (∃ l h, c.2.2.1 = .int l ∧ c.2.2.2 = .int h) := by
+  have hch : ∀ c ∈ ch, boundsOf c.2.1 e = some (c.2.2.1, c.2.2.2) ∧ (∃ u, lookupStr uniq c.2.1 = some u) := by
     intro c hc
-    refine ⟨by rw [he]; exact boundsOf_chain body ch hnd c hc, ?_, hints c hc⟩
+    refine ⟨by rw [he]; exact boundsOf_chain body ch hnd c hc, ?_⟩
     cases hl : lookupStr uniq c.2.1 with
     | some u => exact ⟨u, rfl⟩
     | none =>
@@ -328,7 +339,7 @@ theorem ilStore_invR {shape : Shape} {e body : SExpr} {ch : List Level} {tag : N
       have hm : c.2.1 ∈ ch.map (·.2.1) := List.mem_map.2 ⟨c, hc, rfl⟩
       simp only [List.contains_eq_mem, decide_eq_false_iff_not] at this
       exact absurd hm this
-  obtain ⟨ls, hls, hlu, rfl, rfl, hd, hdi⟩ := hoistBounds_inv ns uniq e ch rvars st3 st3' hs nb hrv hfl hch hhb
+  obtain ⟨ls, hls, hlu, hlg, rfl, rfl, hd, hdi⟩ := hoistBounds_inv ns uniq e ch rvars st3 st3' hs nb hrv hfl hch hhb
   have hvs : ls.map (·.v) = ch.map (·.2.1) := by
     rw [← hls]; simp [RL.sem]
   have hndv : (ls.map (·.v)).Nodup := by rw [hvs]; exact hnd
@@ -398,7 +409,7 @@ theorem ilStore_invR {shape : Shape} {e body : SExpr} {ch : List Level} {tag : N
       simpa [RL.pair] using this
     have hbrk' : ranksOKS rk (uniq.map (·.1)) body = true := by rw [huq]; exact hbrk
     rw [gen_append ns (tempNs ls) rk uniq n hfound body _ hin hbok hbrk'] at hb1
-    exact ⟨name, st2, inames, st3, ls, st3', b', id, st4, _, hnm, hins, hls, huniq, hd, hdi, rfl, hgu, hb1, hid, rfl,
+    exact ⟨name, st2, inames, st3, ls, st3', b', id, st4, _, hnm, hins, hls, huniq, hd, hdi, hlg, rfl, hgu, hb1, hid, rfl,
       by rw [hb2]; rfl⟩
 
 end LG
